@@ -1,5 +1,166 @@
-(* placeholder while the models are being tied to the code *)
-From Coq Require Import List.
-From DA Require Import Model.Scalar Model.SqlTemplates Model.ScalarBackends.
-Theorem C05_placeholder : True. Proof. exact I. Qed.
-Print Assumptions C05_placeholder.
+(* C05 -- every catalogued method behaves as documented on every backend that claims it.
+
+   Objects.  spec_method (Model/Scalar.v): the documented scalar meaning, written from the Term.* docstrings; None = outside
+   the documented domain.  sql_eval vr d m lits args: the SQL template of method m in dialect d (Model/SqlTemplates.v `fmt`,
+   transcribed from sql_model.py / SQLite.py / PostgreSQL.py and compared with the emitted SQL text on every run) evaluated
+   by the hand model of engine d on the row `args`.  np_eval / pl_eval (Model/ScalarBackends.v): the numpy / pandas / polars
+   primitive the executors reach.  mf, mf2: the transcendental functions, one uninterpreted symbol shared by both sides.
+   The index sets supported_sql / supported_pandas / supported_polars are computed from the frozen catalogue
+   (Model/ScalarCatalog.v, compared with op_catalog.methods_table of /repo on every run): the class-e rows marked "y".
+   `vr` says which of the three proposed repairs the code carries (determined from the code on every run); the guards
+   sql_guard / np_guard / pl_guard (Model/ScalarIndex.v) are `true` everywhere except on the argument classes of the known
+   findings, each of which has a `_refuted` witness below; for a repaired variant the corresponding guard disappears.
+   Argument VALUES are universally quantified (all rationals, all strings, all list lengths of is_in / mapv). *)
+From Coq Require Import List Bool QArith String.
+Import ListNotations.
+From DA Require Import Model.Scalar Model.SqlTemplates Model.ScalarBackends Model.ScalarCatalog Model.ScalarIndex Model.AggModels Model.AggIndex
+  Proofs.ScalarP2 Proofs.ScalarP4 Proofs.AggP Proofs.AggP2.
+Local Open Scope string_scope.
+
+(* SQLite and PostgreSQL: for every method the catalogue marks supported, the template evaluates (no engine error) to the
+   documented value, on every argument tuple of the documented domain *)
+Theorem C05_sql_supported_methods_documented :
+  forall (mf : string -> Q -> option Q) (mf2 : string -> Q -> Q -> option Q) (vr : variant) (d : dialect) (m : string) (lits : list bool),
+  In (m, lits) (supported_sql d) ->
+  forall args r, sql_guard vr d m args = true -> spec_method mf mf2 m args = Some r ->
+    exists r', sql_eval mf mf2 vr d m lits args = Some r' /\ sv_eqv r' r.
+Proof. exact sql_supported_documented. Qed.
+Print Assumptions C05_sql_supported_methods_documented.
+
+(* Pandas: the numpy / pandas primitive computes the documented value *)
+Theorem C05_pandas_supported_methods_documented :
+  forall (mf : string -> Q -> option Q) (mf2 : string -> Q -> Q -> option Q) (m : string) (lits : list bool),
+  In (m, lits) supported_pandas ->
+  forall args r, np_guard m args = true -> spec_method mf mf2 m args = Some r ->
+    exists r', np_eval mf mf2 m args = Some r' /\ sv_eqv r' r.
+Proof. exact pandas_supported_documented. Qed.
+Print Assumptions C05_pandas_supported_methods_documented.
+
+(* Polars (not covered by the catalogue): every catalogued method computes the documented value whenever it does not raise *)
+Theorem C05_polars_same_value_when_not_raising :
+  forall (mf : string -> Q -> option Q) (mf2 : string -> Q -> Q -> option Q) (m : string) (lits : list bool),
+  In (m, lits) supported_polars ->
+  forall args r, pl_guard m args = true -> spec_method mf mf2 m args = Some r ->
+    forall r', pl_eval mf mf2 m args = Some r' -> sv_eqv r' r.
+Proof. exact polars_catalogued_documented. Qed.
+Print Assumptions C05_polars_same_value_when_not_raising.
+
+(* ---- the full statement is false for the shipped code: one witness per guard ---- *)
+(* shipped SQL templates: maximum / minimum skip a NULL operand and fmax / fmin yield NULL -- the reverse of the documentation *)
+Theorem C05_sql_maximum_minimum_fmax_fmin_null_handling_refuted :
+  forall mf mf2 d,
+  (exists args r r', spec_method mf mf2 "maximum" args = Some r /\ sql_eval mf mf2 shipped d "maximum" [false; false] args = Some r' /\ differs r' r) /\
+  (exists args r r', spec_method mf mf2 "minimum" args = Some r /\ sql_eval mf mf2 shipped d "minimum" [false; false] args = Some r' /\ differs r' r) /\
+  (exists args r r', spec_method mf mf2 "fmax" args = Some r /\ sql_eval mf mf2 shipped d "fmax" [false; false] args = Some r' /\ differs r' r) /\
+  (exists args r r', spec_method mf mf2 "fmin" args = Some r /\ sql_eval mf mf2 shipped d "fmin" [false; false] args = Some r' /\ differs r' r).
+Proof. exact sql_maxmin_refuted. Qed.
+Print Assumptions C05_sql_maximum_minimum_fmax_fmin_null_handling_refuted.
+
+(* shipped SUBSTR(x, 1 + start, stop) takes `stop` characters: "abcdef".trimstr(1, 3) is "bcd" instead of "bc" *)
+Theorem C05_sql_trimstr_nonzero_start_refuted :
+  forall mf mf2 d,
+  exists args r r', spec_method mf mf2 "trimstr" args = Some r /\ sql_eval mf mf2 shipped d "trimstr" [false; true; true] args = Some r' /\ differs r' r.
+Proof. exact sql_trimstr_refuted. Qed.
+Print Assumptions C05_sql_trimstr_nonzero_start_refuted.
+
+(* shipped SQLite user functions abs / sign answer NULL on +-infinity *)
+Theorem C05_sqlite_abs_sign_of_infinity_refuted :
+  forall mf mf2,
+  (exists args r r', spec_method mf mf2 "abs" args = Some r /\ sql_eval mf mf2 shipped DSqlite "abs" [false] args = Some r' /\ differs r' r) /\
+  (exists args r r', spec_method mf mf2 "sign" args = Some r /\ sql_eval mf mf2 shipped DSqlite "sign" [false] args = Some r' /\ differs r' r).
+Proof. exact sqlite_abs_sign_inf_refuted. Qed.
+Print Assumptions C05_sqlite_abs_sign_of_infinity_refuted.
+
+(* the generic is_nan template answers FALSE on NULL, which is what an uploaded NaN is (model-level: no PostgreSQL server) *)
+Theorem C05_postgresql_is_nan_of_uploaded_nan_refuted :
+  forall mf mf2,
+  exists args r r', spec_method mf mf2 "is_nan" args = Some r /\ sql_eval mf mf2 shipped DPg "is_nan" [false] args = Some r' /\ differs r' r.
+Proof. exact pg_is_nan_of_nan_refuted. Qed.
+Print Assumptions C05_postgresql_is_nan_of_uploaded_nan_refuted.
+
+(* Polars maximum / minimum are max_horizontal / min_horizontal, which skip missing operands *)
+Theorem C05_polars_maximum_minimum_ignore_missing_refuted :
+  forall mf mf2,
+  (exists args r r', spec_method mf mf2 "maximum" args = Some r /\ pl_eval mf mf2 "maximum" args = Some r' /\ differs r' r) /\
+  (exists args r r', spec_method mf mf2 "minimum" args = Some r /\ pl_eval mf mf2 "minimum" args = Some r' /\ differs r' r).
+Proof. exact polars_maxmin_refuted. Qed.
+Print Assumptions C05_polars_maximum_minimum_ignore_missing_refuted.
+
+(* Polars is_inf of a null is null, not False *)
+Theorem C05_polars_is_inf_of_null_refuted :
+  forall mf mf2,
+  exists args r r', spec_method mf mf2 "is_inf" args = Some r /\ pl_eval mf mf2 "is_inf" args = Some r' /\ differs r' r.
+Proof. exact polars_is_inf_null_refuted. Qed.
+Print Assumptions C05_polars_is_inf_of_null_refuted.
+
+(* Pandas mapv overwrites an infinite mapped value with the default *)
+Theorem C05_pandas_mapv_infinite_value_refuted :
+  forall mf mf2,
+  exists args r r', spec_method mf mf2 "mapv" args = Some r /\ np_eval mf mf2 "mapv" args = Some r' /\ sv_eqvb r' r = false.
+Proof. exact np_mapv_infinite_value_refuted. Qed.
+Print Assumptions C05_pandas_mapv_infinite_value_refuted.
+
+(* ---- aggregates (project), windowed aggregates (extend with partition_by) and ordered window functions ----
+   spec_cls c m vals: the documented output cells of method m over ONE group / ordered partition `vals` (any length: the proofs
+   are by induction over the list); agg_sql / agg_pd / agg_pl: the SQL template under the engine model, the pandas and the
+   Polars primitive.  The index sets are the class p / g / w catalogue rows marked "y" (minus the helpers without a documented
+   value: _count, _ngroup, _uniform). *)
+Theorem C05_sql_supported_aggregates_and_windows_documented :
+  forall (mf : string -> Q -> option Q) (mf2 : string -> Q -> Q -> option Q) (vr : variant) (d : dialect) (c : acls) (m : string),
+  In (c, m) (supported_agg_sql d) ->
+  forall vals r, vals <> [] -> spec_cls mf c m vals = Some r ->
+    exists r', agg_sql mf mf2 vr d c m vals = Some r' /\ svl_eqv r' r.
+Proof. exact sql_agg_supported_documented. Qed.
+Print Assumptions C05_sql_supported_aggregates_and_windows_documented.
+
+Theorem C05_pandas_supported_aggregates_and_windows_documented :
+  forall (mf : string -> Q -> option Q) (c : acls) (m : string),
+  In (c, m) supported_agg_pandas -> pd_agg_guard c m = true ->
+  forall vals r, vals <> [] -> spec_cls mf c m vals = Some r ->
+    exists r', agg_pd mf c m vals = Some r' /\ svl_eqv r' r.
+Proof. exact pandas_agg_supported_documented. Qed.
+Print Assumptions C05_pandas_supported_aggregates_and_windows_documented.
+
+(* Polars: same value whenever it does not raise (groups holding a distinguishable NaN are not modelled) *)
+Theorem C05_polars_aggregates_and_windows_same_value_when_not_raising :
+  forall (mf : string -> Q -> option Q) (c : acls) (m : string),
+  In (c, m) supported_agg_polars ->
+  forall vals r, vals <> [] -> no_nan vals = true -> spec_cls mf c m vals = Some r ->
+    forall r', agg_pl mf c m vals = Some r' -> svl_eqv r' r.
+Proof. exact polars_agg_catalogued_documented. Qed.
+Print Assumptions C05_polars_aggregates_and_windows_same_value_when_not_raising.
+
+(* Pandas cumcount is the 0-based position of the row, not the documented cumulative number of non-NA cells *)
+Theorem C05_pandas_cumcount_is_position_refuted :
+  forall mf, exists vals r r', spec_cls mf CWindow "cumcount" vals = Some r /\ agg_pd mf CWindow "cumcount" vals = Some r' /\ svl_eqvb r' r = false.
+Proof. exact pandas_cumcount_refuted. Qed.
+Print Assumptions C05_pandas_cumcount_is_position_refuted.
+
+(* ---- non-vacuity: the index sets are the catalogue's, the guards are satisfiable, the domain is inhabited ---- *)
+Example C05_index_sizes :
+  (List.length (supported_sql DSqlite), List.length (supported_sql DPg), List.length supported_pandas, List.length supported_polars) = (64, 56, 65, 65)%nat.
+Proof. vm_compute. reflexivity. Qed.
+Example C05_maximum_is_claimed_on_sqlite : In ("maximum", [false; false]) (supported_sql DSqlite).
+Proof. vm_compute. tauto. Qed.
+Example C05_guard_and_domain_inhabited :
+  sql_guard shipped DSqlite "maximum" [SNum 1; SNum (5 # 2)] = true /\
+  spec_method (fun _ _ => None) (fun _ _ _ => None) "maximum" [SNum 1; SNum (5 # 2)] = Some (SNum (5 # 2)) /\
+  sql_eval (fun _ _ => None) (fun _ _ _ => None) shipped DSqlite "maximum" [false; false] [SNum 1; SNum (5 # 2)] = Some (SNum (5 # 2)).
+Proof. repeat split; vm_compute; reflexivity. Qed.
+Example C05_repaired_variant_has_no_guard :
+  forall args, sql_guard (mkvariant true true true) DSqlite "maximum" args = true.
+Proof. intros. reflexivity. Qed.
+Example C05_aggregate_index_sizes :
+  (List.length (supported_agg_sql DSqlite), List.length (supported_agg_sql DPg), List.length supported_agg_pandas, List.length supported_agg_polars) = (28, 29, 39, 39)%nat.
+Proof. vm_compute. reflexivity. Qed.
+Example C05_aggregate_examples :
+  spec_cls (fun _ _ => None) CProject "count" [SNum 3; SNull; SNum 1] = Some [SNum 2] /\
+  spec_cls (fun _ _ => None) CWindow "cumsum" [SNum 3; SNum 1; SNum 2] = Some [SNum 3; SNum 4; SNum 6] /\
+  agg_sql (fun _ _ => None) (fun _ _ _ => None) shipped DSqlite CWindow "cumsum" [SNum 3; SNum 1; SNum 2] = Some [SNum 3; SNum 4; SNum 6].
+Proof. repeat split; vm_compute; reflexivity. Qed.
+Example C05_documented_examples :
+  spec_method (fun _ _ => None) (fun _ _ _ => None) "maximum" [SNum 1; SNull] = Some SNull /\
+  spec_method (fun _ _ => None) (fun _ _ _ => None) "fmax" [SNum 1; SNull] = Some (SNum 1) /\
+  spec_method (fun _ _ => None) (fun _ _ _ => None) "if_else" [SNull; SNum 1; SNum 2] = Some SNull /\
+  spec_method (fun _ _ => None) (fun _ _ _ => None) "where" [SNull; SNum 1; SNum 2] = Some (SNum 2).
+Proof. repeat split; reflexivity. Qed.
